@@ -395,7 +395,28 @@ string run_replay(const string &text) {
 }
 } // namespace
 
+#ifdef VERIF_FUZZ
+#include <fuzzer/FuzzedDataProvider.h>
+
+extern "C" int LLVMFuzzerInitialize(int *, char ***) { p_libsys_init(); vl::fuzz_init(); return 0; }
+extern "C" int LLVMFuzzerTestOneInput(const uint8_t *data, size_t size) {
+  FuzzedDataProvider fdp(data, size);
+  Case c;
+  int sel = fdp.ConsumeIntegralInRange<int>(0, 3);
+  c.port = fdp.ConsumeIntegral<uint16_t>();
+  if (sel == 0) { c.kind = '4'; c.addr = fdp.ConsumeBytesAsString(4); c.addr.resize(4, 0); c.family = fdp.ConsumeBool() ? AF_INET : fdp.PickValueInArray({AF_INET6, AF_UNIX, 0, 0xFFFF}); c.len = fdp.ConsumeIntegralInRange<int>(0, 40); c.destlen = fdp.ConsumeIntegralInRange<int>(0, 40); }
+  else if (sel == 1) { c.kind = '6'; c.addr = fdp.ConsumeBytesAsString(16); c.addr.resize(16, 0); c.flow = fdp.ConsumeIntegral<uint32_t>(); c.scope = fdp.ConsumeIntegral<uint32_t>(); c.setflow = fdp.ConsumeIntegral<uint32_t>(); c.setscope = fdp.ConsumeIntegral<uint32_t>(); c.family = fdp.ConsumeBool() ? AF_INET6 : fdp.PickValueInArray({AF_INET, AF_UNIX, 0, 0xFFFF}); c.len = fdp.ConsumeIntegralInRange<int>(0, 40); c.destlen = fdp.ConsumeIntegralInRange<int>(0, 40); }
+  else { c.kind = 's'; c.addr = fdp.ConsumeRemainingBytesAsString().substr(0, 80); }
+  std::string text = to_text(c);
+  vl::set_current_case("fuzz", text);
+  Outcome o = run_case(c);
+  vl::stats().record(text, o.nontrivial, o.fp);
+  if (!o.verdict.empty()) vl::fuzz_report("fuzz", text, "C17:" + o.klass + ": " + o.verdict, o.klass);
+  return 0;
+}
+#else
 int main(int argc, char **argv) {
   p_libsys_init();
   return vl::harness_main(argc, argv, run_generated, run_replay);
 }
+#endif
